@@ -607,6 +607,15 @@ class Facts:
         rx = re.compile(pattern)
         return [b for i, b in sorted(self.bodies.items()) if rx.search(i)]
 
+    def impl_method(self, trait, self_ty, name):
+        """id of method `name` in `impl trait for self_ty` (None when absent)"""
+        for im in self.impls:
+            if im["trait"] == trait and im["self"] == self_ty:
+                for n, did in im["items"]:
+                    if n == name:
+                        return did
+        return None
+
     def closures_of(self, fn_id):
         if self._closures_of is None:
             m = {}
